@@ -84,6 +84,20 @@ func (e *Extractor) clone() *Extractor {
 		warnings:     append([]Warning(nil), e.warnings...),
 		ocrClient:    e.ocrClient,
 	}
+	// A reader this extractor opened from its file is not shared with the copy: the copy
+	// opens (and closes) its own on demand. Otherwise a terminal operation on the copy would
+	// close the reader under the extractor it was derived from.
+	if e.ownsReader && e.filename != "" {
+		newExt.reader = nil
+		newExt.docxReader = nil
+		newExt.odtReader = nil
+		newExt.xlsxReader = nil
+		newExt.pptxReader = nil
+		newExt.htmlReader = nil
+		newExt.epubReader = nil
+		newExt.ownsReader = false
+		newExt.readerOpened = false
+	}
 	return newExt
 }
 
